@@ -230,7 +230,7 @@ def run_history(case, ctx):
     v = orig_energy(pot, r)
     key = (id(pot), float(r).hex())
     bits = canon.hexval(v)
-    old = purity.setdefault(key, bits)
+    old = purity.setdefault(key, (bits, pot))[0]   # the reference keeps id(pot) from being reused by a later object
     if old != bits:
       pur_fail.append("Potential %s-%s energy(%r) returned %s after having returned %s" % (pot.speciesA, pot.speciesB, r, bits, old))
     return v
